@@ -812,9 +812,12 @@ func (h *HttpServer) ServeHTTP(w http.ResponseWriter, r *http.Request) {
 		rec := &egressRecorder{requestID: requestID}
 		if r.ContentLength > 0 {
 			// The body as received, before decompression — what the peer
-			// actually sent. A request with no declared length reports 0,
-			// matching the Python reference.
+			// actually sent.
 			rec.requestBytes = r.ContentLength
+		} else if r.ContentLength < 0 && r.Body != nil {
+			// No declared length (Transfer-Encoding: chunked): the body still
+			// crosses the wire, so count what is actually read from it.
+			r.Body = &countingRequestBody{ReadCloser: r.Body, rec: rec}
 		}
 		r = r.WithContext(withEgressRecorder(r.Context(), rec))
 		defer rec.flush()
